@@ -277,6 +277,7 @@ def run(ctx):
     r8.need(3)
 
     index_validated_on_success(ctx)
+    value_preserving_casts(ctx)
 
 
 def index_validated_on_success(ctx):
@@ -325,3 +326,40 @@ def index_validated_on_success(ctx):
         if not n_success:
             r9.fail('%s/no-success-return' % fn.split('::')[-1], b.file, 'no success return recognised in a native that validates an index (fail closed)')
     r9.need(4)
+
+
+CAST_OK = {
+    ('builtin::sequence::XSequence::len', 'i128', 'usize'): 'the element count of a range whose bounds are 64-bit: 1 + (span - 1) / |step| <= 2^64 - 1 under the dominating start < end / start > end test',
+    ('builtin::floats::add_float_priv_tpl', 'i16', 'usize'): 'the binary exponent of a finite f64 from integer_decode, negated in the branch where it is negative: 0 <= e <= 1074',
+}
+_W = {'i8': (8, True), 'i16': (16, True), 'i32': (32, True), 'i64': (64, True), 'i128': (128, True), 'isize': (64, True),
+      'u8': (8, False), 'u16': (16, False), 'u32': (32, False), 'u64': (64, False), 'u128': (128, False), 'usize': (64, False)}
+
+
+def value_preserving_casts(ctx):
+    """R15.10: an `as` cast between integer types keeps the value only when the target can hold every value of the source (wider, or
+    as wide with the same signedness, or unsigned into a strictly wider signed type).  Any other integer cast in the builtins -- a
+    length `as isize`, a 128-bit count `as usize` -- silently wraps or truncates, and is listed with the reason why the value fits
+    at that site; an unlisted one is reported."""
+    mir = ctx.mir
+    r10 = ctx.rule('R15.10', 'integer `as` casts in the builtins keep the value (widening) or are listed with the bound that makes them exact')
+    for b in mir.bodies:
+        if not b.file.startswith('src/builtin/') or '::tests::' in b.nid:
+            continue
+        for i, j, s in b.stmts():
+            if not (s['k'] == 'assign' and s['rv']['k'] == 'cast' and 'IntToInt' in str(s['rv'].get('ck'))):
+                continue
+            fr, to = s['rv'].get('from'), s['rv'].get('ty')
+            if fr not in _W or to not in _W:
+                continue
+            (wf, sf), (wt, st) = _W[fr], _W[to]
+            keeps = (sf == st and wt >= wf) or (not sf and st and wt > wf)
+            fn = strip_generics(mir.enclosing_fn(b)) if b.kind == 'closure' else b.nid
+            why = CAST_OK.get((fn, fr, to))
+            ok = keeps or why is not None
+            r10.inst({'fn': fn, 'site': mirq.site(b, i, j), 'cast': '%s as %s' % (fr, to), 'value_preserving': keeps, 'listed': why is not None}, ok=ok, kind=(b.nid, i, j))
+            if why is not None and not keeps:
+                r10.exempted('%s: %s as %s' % (fn, fr, to), why)
+            if not ok:
+                r10.fail('%s/cast/%s-as-%s' % (fn, fr, to), mirq.site(b, i, j), '`%s as %s` does not keep every value (it wraps or truncates) and the site is not listed with a bound: a length of 2^63 or more cast to a signed word turns negative, so e.g. every negative index of a sequence that long is reported as out of range' % (fr, to))
+    r10.need(5)
